@@ -2,13 +2,9 @@
 Line-protocol driver over the executable models (DESIGN.md §2.4).
 One request per input line, one reply per line.  Unknown requests answer `bad-op`.
 -/
-import OptiVerif.Model.Prbs
+import Driver.Handlers
 
-open OptiVerif
-
-def handlers : List (List String → Option String) := [
-  Prbs.handle
-]
+open Driver
 
 def reply (line : String) : String :=
   let toks := (line.splitOn " ").filter (· ≠ "")
